@@ -41,7 +41,7 @@ inline Profile make_profile(const std::string& n) {
     W(O_CREATE, 28); W(O_RELEASE, 8); W(O_CALL, 58); W(O_MOVE_MOCK, 1); W(O_SWAP_REPORTER, 1);
     p.p_seq = 45; p.p_seq2 = 40; p.concentrate = true; p.p_forbid = 6; p.p_inf = 45; p.p_lit = 8;
   } else if (n == "seq") {
-    W(O_CREATE, 26); W(O_RELEASE, 8); W(O_CALL, 46); W(O_DESTROY_SEQ, 2); W(O_MOVE_SEQ, 1); W(O_RECREATE_SEQ, 2);
+    W(O_CREATE, 26); W(O_RELEASE, 8); W(O_CALL, 46); W(O_DESTROY_SEQ, 2); W(O_MOVE_SEQ, 3); W(O_RECREATE_SEQ, 2);
     W(O_WATCH, 5); W(O_DESTROY_DW, 4); W(O_UNWATCH, 2); W(O_RECREATE_DW, 2); W(O_DESTROY_MOCK, 1); W(O_RECREATE_MOCK, 1); W(O_SCOPED_DW, 2);
     p.p_seq = 85; p.p_seq2 = 35; p.concentrate = true; p.p_forbid = 2; p.p_inf = 30; p.p_watch_seq = 85; p.p_with = 10; p.p_fx = 10;
   } else if (n == "clauses") {
